@@ -870,6 +870,7 @@ class scroll:
     params = dict(reverse=Bool)
     modifies = ("term", "scrollback_buffer")
     inline = HELPERS
+    static_checks = [_xcheck_deque]  # the deque(maxlen) model against the real collections.deque, on every run
 
     def model(old, a):
         return M_scroll(old, bool(a.reverse))
